@@ -1,4 +1,4 @@
-import XlModel.Stream
+import XlModel.StreamTree
 import XlModel.Drv.Util
 /-!
 Line protocol of the C11 driver (stateful: one stream writer at a time).
@@ -8,8 +8,10 @@ Line protocol of the C11 driver (stateful: one stream writer at a time).
   setrow <hex cell> <opts> <item>*       SetRow; opts = `-` | style,h4,outline,hidden
         item = n | i<int> | b0 | b1 | f<hex text> | s<hex> | R<hex xml> | RE | C<style>,<hex formula>,<item>
   merge <hex> <hex> | colwidth a b w4 <hex pre> | colstyle a b st <hex pre> | panes <0|1> <hex pre>
-  reader | flush <hex post1> <hex post2> <hex tableParts> <hex post3>
+  reader | flush <hex tableParts> <hex field 0> … <hex field 42>   (per-field rendering of xlsxWorksheet)
   bwnew <n> | bwrow <n> | bwflush        the buffered writer on sizes only (large volumes)
+  trees                                  canonical element trees of all written cells: as writeCell wrote them (w) and as
+                                         encoding/xml marshals the decoded records after a load/save cycle (m)
 
 Answer: `<ok|E_…> rows= sw= mc= n= tmp= buf= h=<fnv1a64 of abs> d=<hex of the first 96 bytes appended>`.
 -/
@@ -87,10 +89,10 @@ def parseOp (w : List String) : Option Op :=
     | _, _, _, _ => none
   | ["panes", ok, pre] => (unhexS pre).map (Op.panes (ok = "1"))
   | ["reader"] => some .reader
-  | ["flush", a, b, c, d] =>
-    match unhexS a, unhexS b, unhexS c, unhexS d with
-    | some a, some b, some c, some d => some (.flush { post1 := a, post2 := b, tableParts := c, post3 := d })
-    | _, _, _, _ => none
+  | "flush" :: tp :: fs =>
+    match unhexS tp, allSome (fs.map unhexS) with
+    | some tp, some fs => some (.flush { fields := fs, tableParts := tp })
+    | _, _ => none
   | _ => none
 
 def showSW (res : Option E) (before : Nat) (s : SW) : String :=
@@ -116,6 +118,14 @@ def step (st : St) (w : List String) : St × String :=
       let s := SW.init prolog pre n
       ({ st with sw := some s }, showSW none 0 s)
     | _, _, _ => (st, "bad-op")
+  | ["trees"] =>
+    match st.sw with
+    | some s =>
+      let cells := (s.log.flatMap (·.cells)).filter XC.kept
+      let w := String.intercalate "\n" (cells.map fun c => canonCell (writeCellTree ext c))
+      let m := String.intercalate "\n" (cells.map fun c => canonCell (marshalTree ext (reparse c)))
+      (st, s!"n={cells.length} w={hex64 (fnv w.toList)} m={hex64 (fnv m.toList)}")
+    | none => (st, "bad-op")
   | ["bwnew", n] =>
     match n.toNat? with
     | some n => let b : BWn := { tmp := none, buf := n }; ({ st with bw := b }, showBW b)
